@@ -84,6 +84,7 @@ let () =
     let fb = Wire_flat.flat_of_sexp f in
     let mx = int_of_sexp mx in
     if not (Frag.frag1 fb) then "(outside)"
+    else if fb.Flat.fl_errors_fail then "(refused " ^ show_bool (Frag.frag0 fb) ^ ")"   (* show_errors() fails: RandomGen returns nothing *)
     else
       let n = Stdlib.List.length (FragSem.keys_of fb) in
       if n > mx then "(big " ^ string_of_int n ^ " " ^ show_bool (Frag.frag0 fb) ^ ")"
